@@ -7,7 +7,8 @@
 
   `BlockJob` is one campaign job on such a model; `BlockJob.pred` the prediction (no crash points: C11 on block codecs is
   the business of the container models); `block_pred_good` derives `Good` from `BlockFacts`.  For a lossy pair the C01 clause is
-  outside the side condition (`losslessLow = none`), which is what `lossy` records.
+  outside the side condition (`losslessLow = none`); for the lossless block codecs (DWVW, DPCM_16, SDS, PAF24, ALAC) the
+  `roundtrip` fact covers it: `c01` records one or the other.
 -/
 import SfProofs.AbsWriteBridge
 namespace Sf.AbsWriteBridge
@@ -54,8 +55,12 @@ structure BlockFacts (J : BlockJob) : Prop where
   /-- the reader fills the requested region -/
   backLen : ∀ d n, (J.back d n).length = n
   rate : rateOk J.g.major J.g.sr (J.g.sr : Int) = true
-  /-- the pair is outside the side condition of C01 -/
-  lossy : losslessLow J.g.codec J.ty = none
+  /-- C01: the pair is outside the side condition (a lossy codec: `losslessLow = none`), OR — the LOSSLESS block codecs: DWVW,
+      16-bit DPCM, SDS, PAF24, ALAC — the read-back of the reference file begins with the samples written whenever every one of
+      them meets the side condition (`*_roundtrip`) -/
+  c01 : losslessLow J.g.codec J.ty = none ∨
+    ((∀ v ∈ samples J.one, sampleOk J.g.codec J.ty v) →
+      (J.back (J.data J.one) ((framesOf J.g.ch J.one + J.g.block + J.g.pad + 8) * J.g.ch)).take (samples J.one).length = samples J.one)
 
 theorem block_pred_good (J : BlockJob) (X : BlockFacts J) : Good J.pred := by
   have hlen := samples_length J.g.ch J.one X.calls1
@@ -80,13 +85,14 @@ theorem block_pred_good (J : BlockJob) (X : BlockFacts J) : Good J.pred := by
   intro hok
   change ∀ v ∈ samples J.one, sampleOk J.g.codec J.ty v at hok
   show (J.back _ _).take (samples J.one).length = samples J.one
-  cases hs : samples J.one with
-  | nil => simp
-  | cons v vs =>
-    exfalso
-    obtain ⟨lz, hlz, _⟩ := hok v (by rw [hs]; simp)
-    have h := X.lossy
-    change losslessLow J.g.codec J.ty = some lz at hlz
-    rw [h] at hlz; cases hlz
+  rcases X.c01 with h | h
+  · cases hs : samples J.one with
+    | nil => simp
+    | cons v vs =>
+      exfalso
+      obtain ⟨lz, hlz, _⟩ := hok v (by rw [hs]; simp)
+      change losslessLow J.g.codec J.ty = some lz at hlz
+      rw [h] at hlz; cases hlz
+  · exact h hok
 
 end Sf.AbsWriteBridge
